@@ -90,7 +90,10 @@ func init() {
 		CheckMustWrite(c, "C09")
 	}
 	extraRules["C07"] = stale("share")
-	extraRules["C04"] = func(c *Ctx) { CheckMustWrite(c, "C04") }
+	extraRules["C04"] = func(c *Ctx) {
+		CheckMustWrite(c, "C04")
+		ErrDrop(c, "default", []string{"group", "pairing", "sign", "share", "proof", "shuffle", "encrypt", "internal", "util/encoding"})
+	}
 	extraRules["C10"] = func(c *Ctx) { WriterDiscipline(c, "default", "C10"); CheckMustWrite(c, "C10") }
 	extraRules["C11"] = func(c *Ctx) { WriterDiscipline(c, "default", "C11"); CheckMustWrite(c, "C11") }
 	extraRules["C12"] = func(c *Ctx) { WriterDiscipline(c, "default", "C12"); CheckMustWrite(c, "C12") }
